@@ -291,3 +291,21 @@ pub fn h_lemma_f32_fixpoint() {
         crate::vcheck!(false, "arr_to_f64 accepts every 4-byte slice");
     }
 }
+
+//@K name=k_lemma_vint_value_bound for=super::read_vint unwind=10 props=C15,C13,C17,C12
+pub fn h_lemma_vint_value_bound() {
+    // the facts about read_vint that the Verus unit reader_core ASSUMES (sp_read_vint): value < 2^(7 len) <= 2^56,
+    // len = 8 - ilog2(first byte) <= |buf|, value + 2^(7 len) = big-endian value of the first len bytes
+    let arr = sp::any_arr9();
+    let n = sp::any_len9();
+    let s = &arr[..n];
+    match read_vint(s) {
+        Ok(Some((v, l))) => {
+            crate::vcheck!(1 <= l && l <= 8 && l <= n && l == 8 - (s[0].ilog2() as usize), "read_vint: length = 8 - ilog2(first byte), within the slice");
+            crate::vcheck!(v < sp::pow2_64(7 * l) && v < (1u64 << 56), "read_vint: value < 2^(7 len) <= 2^56");
+            crate::vcheck!(v + sp::pow2_64(7 * l) == sp::be64(&s[..l]), "read_vint: value + marker = big-endian value of the first len bytes");
+        }
+        Ok(None) => crate::vcheck!(n == 0 || (s[0] != 0 && n < 8 - (s[0].ilog2() as usize)), "read_vint: need-more exactly when the slice is empty or shorter than the announced length"),
+        Err(_) => crate::vcheck!(n > 0 && s[0] == 0, "read_vint: error exactly for a first byte 0x00"),
+    }
+}
